@@ -383,6 +383,19 @@ class Interp:
                 loc = self.add_proj(loc, p)
             elif p.startswith("as "):
                 continue
+            elif p.startswith("[") and loc[0] != "V" and self.lists and self._view_at(st, loc) is not None:
+                # indexing a place that holds a modelled list: continue inside the list
+                loc = ("V", self._view_at(st, loc), ())
+                if p.startswith("[_"):
+                    iv = st.mem.get((fid, int(p[2:-1])))
+                    if iv is not None and iv[0] == "const" and isinstance(iv[1], int) and not isinstance(iv[1], bool):
+                        loc = self.add_proj(loc, "[%d]" % iv[1])
+                    else:
+                        raise Undecided("index %r of a modelled list" % (iv,))
+                elif p.startswith("[c") and p[2:-1].isdigit():
+                    loc = self.add_proj(loc, "[%s]" % p[2:-1])
+                else:
+                    raise Undecided("projection %r of a modelled list" % (p,))
             elif p.startswith("[_"):
                 iv = st.mem.get((fid, int(p[2:-1])))
                 if iv is not None and iv[0] == "const" and isinstance(iv[1], int) and not isinstance(iv[1], bool):
@@ -398,6 +411,14 @@ class Interp:
             else:
                 loc = self.add_proj(loc, p)
         return loc
+
+    def _view_at(self, st, loc):
+        v = st.heap.get(loc)
+        if v is None and loc[0] == "L" and not loc[3]:
+            v = st.mem.get((loc[1], loc[2]))
+        if v is not None and v[0] == "agg" and v[1] == "slice" and v[2] in self.lists:
+            return v
+        return None
 
     def eval_operand(self, st, fid, op):
         k = op["k"]
